@@ -18,6 +18,7 @@ import (
 	"strconv"
 	"strings"
 	"sync"
+	"time"
 
 	"verif/engines/vsim"
 	"verif/engines/xs"
@@ -29,12 +30,13 @@ import (
 )
 
 type config struct {
-	Spec   bmgen.ArchSpec `json:"spec"`
-	Name   string         `json:"name"`
-	Depth  int            `json:"depth"` // 0 = closure
-	MaxSt  int            `json:"max_states"`
-	Imm    string         `json:"imm"`    // "boundary" | "all"
-	Inputs []uint64       `json:"inputs"` // values offered on every input port
+	Spec     bmgen.ArchSpec `json:"spec"`
+	Name     string         `json:"name"`
+	Depth    int            `json:"depth"` // 0 = closure
+	MaxSt    int            `json:"max_states"`
+	Imm      string         `json:"imm"`    // "boundary" | "all"
+	Inputs   []uint64       `json:"inputs"` // values offered on every input port
+	Deadline time.Duration  `json:"-"`
 }
 
 // ---------------------------------------------------------------------------------------------
@@ -265,13 +267,13 @@ func (s *simSide) encode() string {
 }
 
 type simSnap struct {
-	pc                  uint64
-	regs, mem, outs     []interface{}
-	outsValid, insRecv  []bool
-	extra               map[string]interface{}
-	deferred            map[string]procbuilder.DeferredInstruction
-	delay               int32
-	lastPc              uint64
+	pc                 uint64
+	regs, mem, outs    []interface{}
+	outsValid, insRecv []bool
+	extra              map[string]interface{}
+	deferred           map[string]procbuilder.DeferredInstruction
+	delay              int32
+	lastPc             uint64
 }
 
 func (s *simSide) snap() *simSnap {
@@ -553,13 +555,13 @@ func divisorZero(st pstate, l letter) bool {
 }
 
 type result struct {
-	cfg                         config
-	states, transitions, depth  int
-	closed, capped              bool
-	letters                     int
-	notSimulable                string
-	mismatches                  map[string]mmInfo // op|class -> first (shortest) example
-	opsSeen                     map[string]int
+	cfg                        config
+	states, transitions, depth int
+	closed, capped             bool
+	letters                    int
+	notSimulable               string
+	mismatches                 map[string]mmInfo // op|class -> first (shortest) example
+	opsSeen                    map[string]int
 }
 
 type mmInfo struct {
@@ -632,6 +634,7 @@ func explore(cfg config, hwopt func(*bondmachine.Config)) result {
 		Key:       func(p pstate) string { return p.hk + "#" + p.sk },
 		MaxDepth:  cfg.Depth,
 		MaxStates: cfg.MaxSt,
+		Deadline:  cfg.Deadline, // a configuration cut by it is reported as capped (exhaustive=false), never as a verdict
 		Workers:   4,
 		Succ: func(id int, st pstate) []xs.Edge[pstate] {
 			w := pool.Get().(*worker)
@@ -789,6 +792,20 @@ func main() {
 			add("wideword-rs8-R1-O11", bmgen.ArchSpec{Rsize: 8, R: 1, N: 1, M: 1, L: 1, O: 11, Ops: ops}, 3, 60000, "boundary", []uint64{0, 0xa5})
 		}
 	}
+	// port shapes whose input and output selectors have different widths (1-2 ports need one selector bit, 3-4 two,
+	// 5 three): every port index of both kinds is used by the alphabet
+	{
+		io := []string{"rset", "i2r", "r2o", "inc", "cpy", "j"}
+		shapes := [][2]uint8{{1, 3}, {3, 1}, {2, 5}, {5, 2}}
+		if run.Thorough() {
+			shapes = append(shapes, [2]uint8{1, 4}, [2]uint8{4, 1}, [2]uint8{3, 5}, [2]uint8{1, 9})
+		}
+		for _, sh := range shapes {
+			add(fmt.Sprintf("ioshape-N%d-M%d", sh[0], sh[1]), bmgen.ArchSpec{Rsize: 8, R: 1, N: sh[0], M: sh[1], L: 0, O: 2, Ops: io}, 3, 60000, "boundary", []uint64{0, 0xa5})
+		}
+		add("ioshape-full-N1-M3", bmgen.ArchSpec{Rsize: 8, R: 1, N: 1, M: 3, L: 1, O: 2, Ops: table.opsAt(8)}, 2, 60000, "boundary", []uint64{0, 0xa5})
+		add("ioshape-full-N3-M1", bmgen.ArchSpec{Rsize: 8, R: 1, N: 3, M: 1, L: 1, O: 2, Ops: table.opsAt(8)}, 2, 60000, "boundary", []uint64{0, 0xa5})
+	}
 	// closure at Rsize 8: every register value reachable through rset with all 256 immediates
 	{
 		ops := []string{}
@@ -801,6 +818,12 @@ func main() {
 			add("closure-rs8-R1-allimm", bmgen.ArchSpec{Rsize: 8, R: 1, N: 1, M: 1, L: 0, O: 1, Ops: ops}, 0, 3000000, "all", []uint64{0, 0xa5})
 		} else {
 			add("closure-rs8-R1-arith", bmgen.ArchSpec{Rsize: 8, R: 1, N: 0, M: 0, L: 0, O: 1, Ops: []string{"rset", "add", "inc", "dec", "cpy", "j"}}, 0, 300000, "boundary", nil)
+		}
+	}
+	for i := range cfgs {
+		cfgs[i].Deadline = 4 * time.Minute
+		if run.Thorough() {
+			cfgs[i].Deadline = 25 * time.Minute
 		}
 	}
 	results := make([]result, len(cfgs))
